@@ -84,7 +84,7 @@ def gen_pattern(rng, family=None, coherent=True):
 BOUNDARY_INTS = [0, 0, 1, 1, 2, 9, 10, 99, 100, 7, 42]
 
 
-def gen_bid(rng, bld=False):
+def gen_bid(rng, bld=False, allow_zero=False):
     r = rng.random()
     if r < 0.35:
         val = str(rng.choice([1001, 1002, 1099, 1998, 1999, 22000, 22999, 29999, 333000, 399999]))
@@ -97,6 +97,9 @@ def gen_bid(rng, bld=False):
         val = rng.choice(["0001", "0033", "0999", "999", "1", "9", "0", "09", "099", "8999", "19999", "4444000"])
     if bld:
         val = str(int(val)) if int(val) > 0 else "1"
+    if int(val) == 0 and not allow_zero:
+        # an id of value 0 cannot be written as BLD (documented range starts at 1); C15/C17 target it on purpose
+        val = val[:-1] + "7"
     return val
 
 
